@@ -12,7 +12,7 @@ import shutil
 
 from vlib import core
 
-THEOREMS = ["C05_merge_keys", "C05_select", "C05_conflicts", "C05_unused", "C05_spec", "C05_cross", "C05_cross_pass1", "C05_select_forms",
+THEOREMS = ["C05_merge_keys", "C05_select", "C05_conflicts", "C05_unused", "C05_spec", "C05_cross", "C05_cross_tree", "C05_cross_pass1", "C05_select_forms",
             "C05_static_select", "C05_static_select_level", "C05_static_other_args", "C05_unused_project",
             "C05_old_refuted", "C05_lone_other_refuted", "C05_panic_old_refuted", "C05_accessor_current_locale"]
 PROPS = "theories/Props/C05.v"
@@ -39,7 +39,7 @@ PRE = ("From Coq Require Import List NArith.\nImport ListNotations.\n"
 PRE_RT = ("From Coq Require Import List NArith ZArith.\nImport ListNotations.\n"
           "From LI Require Import Base.StrOps Parser.Plurals Runtime.CldrRules Runtime.CldrRulesCheck.\nOpen Scope N_scope.\n")
 
-LOCALES = ["en", "fr", "ru", "ar", "pl", "ja", "cy", "he"]
+LOCALES = ["en", "fr", "ru", "ar", "pl", "ja", "cy", "he", "pt", "pt-PT"]   # pt-PT: a region that changes the cardinal rule
 FORMS = ["zero", "one", "two", "few", "many", "other"]
 COQ_FORM = {"zero": "Zero", "one": "One", "two": "Two", "few": "Few", "many": "Many", "other": "Other"}
 COQ_RULE = {"cardinal": "Cardinal", "ordinal": "Ordinal"}
@@ -310,7 +310,7 @@ def run_runtime(ctx, exe, findings):
             t1, t2 = rt["T"][(loc, r)].split("|")
             table = t1.split(",") + t2.split(",")
             cats = rt["C"][(loc, r)].split(",")
-            items.append("(mk_tcase L_%s %s OPS_ %s %s)" % (loc, "Cardinal" if r == "c" else "Ordinal",
+            items.append("(mk_tcase L_%s %s OPS_ %s %s)" % (loc.replace("-", "_"), "Cardinal" if r == "c" else "Ordinal",
                                                            core.coq_list([COQ_FORM[c] for c in table]),
                                                            core.coq_list([COQ_FORM[c] for c in cats])))
             meta.append((loc, r, table, cats))
@@ -323,6 +323,34 @@ def run_runtime(ctx, exe, findings):
             res["oracle_mismatch"].append({"locale": loc, "rule": r,
                                            "operand": (ns + ds)[idx] if idx < len(ns) + len(ds) else "categories()",
                                            "icu4x": table[idx] if idx < len(table) else cats})
+    # 1b. regional / script variants whose ICU4X rules differ from their bare language's must be represented in the fixture
+    rc, vout, err = core.sh([exe, "variants"], timeout=300)
+    vt = {}
+    for line in vout.split("\n"):
+        if line.startswith("V "):
+            _, var, who, r, body = line.split(" ", 4)
+            vt[(var, who, r)] = body
+    fixture = {}
+    for loc in LOCALES:
+        for r in ("c", "o"):
+            fixture[(loc, r)] = rt["T"][(loc, r)].replace("|", ",")
+    res["variants_examined"] = len({v for (v, _, _) in vt})
+    res["variants_differing"], res["script_variants_with_root_rules"], res["variants_not_in_fixture"] = [], [], []
+    for (var, who, r), body in sorted(vt.items()):
+        if var != who or var == "und":
+            continue
+        lang = var.split("-")[0]
+        if body == vt[(var, lang, r)]:
+            continue
+        res["variants_differing"].append("%s(%s)" % (var, r))
+        if any(body == fixture.get((f, r)) for f in LOCALES if f.split("-")[0] == lang and f != lang):
+            continue                                    # same table as a fixture locale of that language (pt-AO = pt-PT)
+        if body == vt[("und", "und", r)]:
+            # ICU4X resolves a variant whose (likely) script is not the language's default script - CLDR parent: root -
+            # to the ROOT rules (sr-Latn, sr-ME, uz-Cyrl, ..): recorded as a finding, see the evidence
+            res["script_variants_with_root_rules"].append("%s(%s)" % (var, r))
+            continue
+        res["variants_not_in_fixture"].append({"variant": var, "rule": r})
     # 2. td_plural!/td_plural_ordinal! = the table
     for loc in LOCALES:
         for r in ("c", "o"):
@@ -541,8 +569,8 @@ def gen_unused_tree(rng, depth=0):
     tree = []
     for base in rng.sample(["a", "b", "item", "x9", "n"], rng.choice([2, 3, 4])):
         tree.append(("plural", base, rng.choice(["cardinal", "cardinal", "ordinal"])))
-    if depth < 2:
-        for name in rng.sample(["s1", "s2"], rng.choice([0, 1, 2] if depth == 0 else [0, 1])):
+    if depth < 3:
+        for name in rng.sample(["s1", "s2"], rng.choice([0, 1, 2] if depth == 0 else [0, 1, 1] if depth == 1 else [0, 1])):
             tree.append(("sub", name, gen_unused_tree(rng, depth + 1)))
     return tree
 
@@ -615,8 +643,10 @@ def run_unused(ctx, exe, cats):
     lines = out.splitlines()
     if rc != 0 or len(lines) != len(dirs):
         raise core.Infra("h_plurals parse (unused): %d lines for %d projects; %s" % (len(lines), len(dirs), err[-400:]))
-    res = {"cases": 0, "fail": [], "disagree": [], "problems": [], "warnings_seen": 0, "unattributed": []}
+    res = {"cases": 0, "fail": [], "disagree": [], "problems": [], "warnings_seen": 0, "unattributed": [],
+           "tree_projects": 0, "tree_levels": 0, "tree_fail": [], "tree_disagree": []}
     items, meta = [], []
+    titems, tmeta = [], []
     def names_tree(lvl):
         return {k: (names_tree(v[2]) if v[0] == "sub" else None) for k, v in lvl.items()}
 
@@ -627,6 +657,29 @@ def run_unused(ctx, exe, cats):
             res["problems"].append({"locales": locs, "namespaces": nss, "project_merge": pm if not isinstance(pm, dict) or "ok" not in pm else "ok",
                                     "pipeline": pipe if not isinstance(pipe, dict) or "ok" not in pipe else "ok"})
             continue
+        # the merged key tree at every depth, against the two-pass tree model (check_cross_tree)
+        impl_by = {(x.get("ns"), x["name"]): x["keys"] for x in pm["ok"]}
+        tlevels, touts = [], []
+        for ns in nss:
+            for l in locs:
+                lv = []
+                unused_levels(data[ns][l], [ns + "::"] if ns else [], lv)
+                for path, lvl in lv:
+                    names = sorted(lvl.keys(), key=lambda x: x.encode())
+                    tlevels.append("(%s, %s)" % (coq_path(path) if path else "(@nil str)", core.coq_list(
+                        ["(%s, %s)" % (core.coq_str(nm), coq_ival(lvl[nm])) for nm in names])))
+                    out = impl_by.get((ns, l), [])
+                    for name in path[(1 if ns else 0):]:
+                        out = next((t["keys"] for (n2, t) in out if n2 == name and t["k"] == "sub"), [])
+                    outd = []
+                    for (nm, t) in out:
+                        if t["k"] == "sub":
+                            t = dict(t)
+                            t["_sid"] = lvl[nm][1] if nm in lvl and lvl[nm][0] == "sub" else 0
+                        outd.append("(%s, %s)" % (core.coq_str(nm), coq_oval(t, lvl)))
+                    touts.append(core.coq_list(outd) if outd else "(@nil (str * oval))")
+        titems.append("(%s, Some %s)" % (core.coq_list(tlevels), core.coq_list(touts)))
+        tmeta.append({"_pi": pi, "levels": len(tlevels)})
         wm = [w for w in pm.get("warnings", []) if w[0] == "UnusedForm"]
         wp = [w for w in o.get("warnings", []) if w[0] == "UnusedForm"]
         res["warnings_seen"] += len(wm) + len(wp)
@@ -653,6 +706,14 @@ def run_unused(ctx, exe, cats):
         for w in wm + wp:
             if (w[1], tuple(w[2][:-1])) not in known_levels:
                 res["unattributed"].append(w)
+    tcodes = core.coq_eval(ctx, "c05tr_%d" % os.getpid(), PRE, titems, "check_cross_tree", min_per_shard=2)
+    res["tree_projects"], res["tree_levels"] = len(titems), sum(m["levels"] for m in tmeta)
+    for m, c in zip(tmeta, tcodes):
+        if c in (2, 3):
+            locs, nss, data = projects[m["_pi"]]
+            entry = {"locales": locs, "default": locs[0], "namespaces": nss,
+                     "keys": {str(ns): {l: names_tree(data[ns][l]) for l in locs} for ns in nss}}
+            (res["tree_fail"] if c == 3 else res["tree_disagree"]).append(entry)
     codes = core.coq_eval(ctx, "c05u_%d" % os.getpid(), PRE, items, "check_unused", min_per_shard=20)
     res["cases"] = len(items)
     for m, it, c in zip(meta, items, codes):
@@ -845,6 +906,13 @@ def run(ctx):
                     "a locale that writes only `<key>_other` (all CLDR gives e.g. Japanese) is not merged into the plural key "
                     "other locales define: MissingKey `<key>` + SurplusKey `<key>_other`, and the locale renders the default "
                     "locale's text", "lone-other")
+    if unres["tree_fail"]:
+        unres["tree_fail"].sort(key=lambda m: len(json.dumps(m["keys"])))
+        core.violation(ctx, "cross_tree", {
+            "failing_input": unres["tree_fail"][0], "more": unres["tree_fail"][1:3], "count": len(unres["tree_fail"]),
+            "explanation": "spec_cross_tree (Coq) is false on the key tree LocalesOrNamespaces::merge_plurals produced: at some "
+                           "depth a locale that writes only `<key>_other` did not get the plural `<key>` another locale declares "
+                           "at the same key path (sub-keys / namespace)"})
     if unres["fail"] or unres["unattributed"]:
         unres["fail"].sort(key=lambda m: (len(m["locales_of_project"]), len(m["keys"])))
         first = (unres["fail"] or [{"unattributed_warning": unres["unattributed"][0]}])[0]
@@ -883,6 +951,9 @@ def run(ctx):
         corr.append("panic not predicted by the model")
     if shape_problems:
         corr.append("parsed tree does not have the generated shape")
+    if unres["tree_disagree"]:
+        corr.append("correspondence Parser/Plurals.v (merge_project_tree) vs the merged key tree of whole projects: %s"
+                    % json.dumps(unres["tree_disagree"][0])[:400])
     if unres["disagree"]:
         corr.append("correspondence Parser/Plurals.v (project_warnings) vs the UnusedForm warnings of whole projects")
     if unres["problems"]:
@@ -893,6 +964,9 @@ def run(ctx):
         corr.append("the parse pipeline failed on a project of literal-count references: %s" % json.dumps(stres["pipeline_problems"][0])[:300])
     if rtres["oracle_mismatch"]:
         corr.append("ICU4X plural table differs from Runtime/CldrRules.v")
+    if rtres["variants_not_in_fixture"]:
+        corr.append("a regional variant has plural rules of its own in the ICU4X data but no locale of the compiled project "
+                    "(h_plurals/gen_fixed.py LOCALES) and of Runtime/CldrRules.v represents it: %s" % json.dumps(rtres["variants_not_in_fixture"][:4]))
     if corr and not ctx.violations:
         core.violation(ctx, "correspondence", {
             "broken": corr, "first_disagreeing_input": (disagree or cross_disagree or py_mismatch or unexplained_panics or shape_problems or [None])[0],
@@ -927,11 +1001,15 @@ def run(ctx):
         "samples": [dict(m, code=c) for m, c in list(zip(metas, codes))[:3] + list(zip(metas, codes))[13:15]],
         "parser_level_cases": len(acc), "locales_merged": len(locale_results), "locale_outcomes": outcome,
         "runtime_renderings": rtres["renderings"], "icu_table_entries_compared_with_CldrRules": rtres["table_entries"],
+        "cross_tree_projects": unres["tree_projects"], "cross_tree_levels": unres["tree_levels"],
+        "cross_tree_failures": len(unres["tree_fail"]), "cross_tree_disagreements": len(unres["tree_disagree"]),
         "unused_project_cases": unres["cases"], "unused_project_failures": len(unres["fail"]),
         "unused_project_disagreements": len(unres["disagree"]), "unused_project_warnings_seen": unres["warnings_seen"],
         "static_selection_cases": stres["cases"], "static_selection_references": stres["references"],
         "static_selection_failures": len(stres["fail"]), "static_selection_disagreements": len(stres["disagree"]),
         "static_count_arg_failures": len(stres["other_args_fail"]),
+        "locale_variants_examined": rtres["variants_examined"], "locale_variants_differing_from_language": rtres["variants_differing"],
+        "script_variants_resolved_to_root_rules_by_icu4x": rtres["script_variants_with_root_rules"],
         "cross_locale_projects": len(citems), "cross_locale_failures": len(cross_fail),
         "cross_locale_disagreements": len(cross_disagree),
         "traces_validated_against_impl": len(acc),
